@@ -27,7 +27,14 @@ META = {
                   "grid-consistent for all (n1,n2). NOT proved (statistical): that the observed share of samples per "
                   "edge/face follows length/area - numpy's choice is trusted, a chi-square test in the thorough tier is "
                   "support only. Defects #36/#37/#38 were repaired by fix: commits; the theorems are about the repaired code.",
-    "level_note": "Trusted: Coq kernel + vm_compute; Reals axioms of the stdlib; the sampling/bezier translator; the driver's "
+    "level_note": "Grid resolution: the model's grid_res is the EXACT nearest integer d-th root (iroot_round, proved to "
+                  "satisfy (r-1/2)^d <= n < (r+1/2)^d); the code computes round(np.power(n_pts, 1/box.dim)) in binary64 with "
+                  "round-half-even. Their agreement is not a theorem: it is checked on every run for ALL n_pts <= 100000 (quick; "
+                  "2000000 thorough) and box dimensions 1..8 by a kernel-checked run-length table (C19_grid_resolution_table_sound "
+                  "says what an accepted table means; exact ties cannot occur since ((2r+1)/2)^d is never an integer) and is "
+                  "ASSUMED beyond those limits. Sphere/ball theorems exclude the all-zero normal row g = (0,0,0): a measure-zero "
+                  "draw on which the code divides by a zero norm and returns NaN points (not rejected, not modelled). "
+                  "Trusted: Coq kernel + vm_compute; Reals axioms of the stdlib; the sampling/bezier translator; the driver's "
                   "recording wrappers around numpy.random (draws are inputs of the model: numpy's generator is assumed to "
                   "return draws in the documented ranges and choice to follow p); numpy broadcasting modelled coordinate-"
                   "wise; np.linspace / np.meshgrid / round(np.power) modelled by hand and tied by correspondence; binary64 "
@@ -45,6 +52,9 @@ Require Import MV.C19.Ops MV.C19.OpsQ MV.C19.Gen MV.C19.Model MV.C19.RunQ.
 Open Scope Z_scope.
 """
 DRIVER = "vf.impl.c19_driver"
+GRID_LIMIT_QUICK = 100000        # sample counts for which round(np.power(n, 1/d)) is checked against the exact root
+GRID_LIMIT_THOROUGH = 2000000
+GRID_DIMS = [1, 2, 3, 4, 5, 6, 7, 8]
 TOL = 1e-9
 
 
@@ -722,7 +732,12 @@ def run(ctx):
         "the random draws are inputs of the model: numpy's normal/uniform/random return reals in their documented ranges "
         "(normal rows are not the zero vector), choice returns indices < len(p) and follows p",
         "numpy broadcasting on Vec is coordinate-wise; control points of one net have one dimension",
-        "theorems are over R; binary64 round-off enters only the correspondence (tolerance 1e-9 relative)"]
+        "theorems are over R; binary64 round-off enters only the correspondence (tolerance 1e-9 relative)",
+        "round(np.power(n_pts, 1/dim)) evaluated in binary64 equals the exact nearest integer root: checked by table for "
+        "n_pts <= %d and dim <= 8 on this run, assumed beyond" % (GRID_LIMIT_QUICK if quick else GRID_LIMIT_THOROUGH),
+        "the three normal draws of a sphere/ball sample are not all exactly zero (probability 0; the code would return NaN)"]
+    ctx.trusted_base += ["numpy's binary64 np.power and Python's round for the grid resolution beyond the checked table "
+                         "(n_pts > limit or dim > 8)"]
     ctx.regen(sys.modules[__name__])
     b = ctx.build_props(extra_targets=["theories/C19/RunF.vo", "theories/C19/RunQ.vo"])
     ctx.hygiene(["Lib", "C19"])
@@ -775,9 +790,11 @@ def run(ctx):
 
     # 1. the oracle (also the search for a failing input)
     fails = [(i, m) for i, (c, o) in enumerate(zip(cases, obs)) for m in [oracle(c, o)] if m]
+    unknown = [(i, m) for i, m in fails if not ctx.known(klass(cases[i], m))]
     ctx.obligation("oracle: every sample lies in its domain, counts are exact, Bezier values equal the Fraction-arithmetic "
                    "Bernstein form, export indices are grid-consistent (%d cases)" % len(cases),
-                   "oracle-on-implementation", True, "%d failing cases" % len(fails))
+                   "oracle-on-implementation", not unknown and len(cases) > 0,
+                   "%d failing cases, %d of them not under a listed known-finding key" % (len(fails), len(unknown)))
 
     # 2. kernel-checked correspondence
     fterms, fidx, qterms, qidx, proto = [], [], [], [], []
@@ -808,6 +825,44 @@ def run(ctx):
         ctx.obligation("correspondence batches", "correspondence", False, "model does not compile")
     disagree = [fidx[i] for i in (bad_f or [])] + [qidx[i] for i in (bad_q or [])]
 
+    # 2b. round(np.power(n, 1/d)) in binary64 against the exact nearest root, for ALL n <= GRID_LIMIT, d <= 8
+    limit = GRID_LIMIT_QUICK if quick else GRID_LIMIT_THOROUGH
+    gcase = {"kind": "gridres", "limit": limit, "dims": GRID_DIMS}
+    gobs = run_one(gcase)
+    ctx.extra["grid_resolution_table"] = {"limit": limit, "dims": GRID_DIMS}
+    if "exc" in gobs or "tables" not in gobs:
+        ctx.obligation("grid resolution table", "correspondence", False, "driver: %s" % gobs.get("exc"))
+    else:
+        tabs = gobs["tables"]
+        gfail = None
+        if 1 in GRID_DIMS and not tabs["1"].get("identity"):
+            gfail = (1, None)
+        for d in GRID_DIMS:
+            if d == 1:
+                continue
+            lo = 0
+            for hi, r in tabs[str(d)]:
+                for n in (lo, hi):
+                    if gfail is None and nearest_root(n, d) != r:
+                        gfail = (d, n)
+                lo = hi + 1
+            if lo != limit + 1 and gfail is None:
+                gfail = (d, lo)
+        ctx.obligation("oracle: round(np.power(n, 1/d)) is the nearest integer root at every breakpoint, 0 <= n <= %d, d in %s; "
+                       "identity for d = 1" % (limit, GRID_DIMS), "oracle-on-implementation", gfail is None, str(gfail or ""))
+        if gfail is not None and gfail[1] is not None:
+            d, n = gfail
+            bc = {"kind": "box", "p1": [0.0] * d, "p2": [1.0] * d, "n": n, "mode": "grid", "pc": False, "seed": 0}
+            bo = run_one(bc)
+            ctx.violation("box: " + (oracle(bc, bo) or "round(np.power(%d, 1/%d)) is not the nearest root" % (n, d)),
+                          {"case": bc, "class": "box/grid-resolution"}, key="box/grid-resolution")
+        if b["model_ok"]:
+            terms = ["(%s, %s, %s)" % (zlit(d), zlit(limit), coq_list(["(%s, %s)" % (zlit(hi), zlit(r)) for hi, r in tabs[str(d)]]))
+                     for d in GRID_DIMS if d > 1]
+            ctx.run_cases("gridres", HEADER_Q, terms, "check_grid_table", case_type="(Z * Z * list (Z * Z))", shard=1,
+                          timeout=900)
+        ctx.count("grid resolution table: n <= %d, d <= %d" % (limit, max(GRID_DIMS)))
+
     # 3. statistical support (thorough): shares per edge/face against length/area
     if not quick:
         fcs = freq_cases(rng)
@@ -832,7 +887,7 @@ def run(ctx):
 
     # 4. verdicts
     reported = set()
-    for i, msg in fails[:300]:
+    for i, msg in unknown + [f for f in fails if f not in unknown]:   # unknown classes first, every failure classified
         c = cases[i]
         key = klass(c, msg)
         if key in reported:
